@@ -166,10 +166,35 @@ fn api_step_xorshift() {
 // ---- fill_bytes on the public API (C05): n/8 next_u64 results, then one next_u64 (tail 5..7) or one next_u32 (tail 1..4),
 // little-endian, truncated; the generator is left exactly where the equivalent next_* calls leave it.
 // BOUNDED in the length: n <= 20 (every tail length after 0, 1 and 2 full words). ----
+// The output scramblers that multiply (SplitMix64, the * and ** generators) make CBMC compare two bit-blasted copies of the same
+// multiplier chains; multiplication is therefore abstracted to an uninterpreted function (memo table): the fill_bytes
+// projection is proved for EVERY interpretation of wrapping_mul, in particular the real one.
+use core::sync::atomic::{AtomicU64, AtomicUsize, Ordering::Relaxed};
+static MA: [AtomicU64; 48] = [const { AtomicU64::new(0) }; 48];
+static MB: [AtomicU64; 48] = [const { AtomicU64::new(0) }; 48];
+static MR: [AtomicU64; 48] = [const { AtomicU64::new(0) }; 48];
+static MN: AtomicUsize = AtomicUsize::new(0);
+fn mul_uf(a: u64, b: u64, wide: bool) -> u64 {
+    let n = MN.load(Relaxed);
+    let mut i = 0;
+    while i < n {
+        if MA[i].load(Relaxed) == a && MB[i].load(Relaxed) == b { return MR[i].load(Relaxed); }
+        i += 1;
+    }
+    let r: u64 = if wide { kani::any() } else { kani::any::<u32>() as u64 };
+    assert!(n < 48);
+    MA[n].store(a, Relaxed); MB[n].store(b, Relaxed); MR[n].store(r, Relaxed); MN.store(n + 1, Relaxed);
+    r
+}
+pub fn mul_uf64(a: u64, b: u64) -> u64 { mul_uf(a, b, true) }
+pub fn mul_uf32(a: u32, b: u32) -> u32 { mul_uf(a as u64, b as u64, false) as u32 }
+
 macro_rules! api_fill {
     ($name:ident, $ty:ty, $n:expr, $mk:expr) => {
         #[kani::proof]
         #[kani::unwind(70)]
+        #[kani::stub(u64::wrapping_mul, mul_uf64)]
+        #[kani::stub(u32::wrapping_mul, mul_uf32)]
         fn $name() {
             let seed: [u8; $n] = kani::any();
             let mut g = <$ty>::from_seed($mk(seed));
